@@ -18,7 +18,7 @@ type Known struct {
 		ScenarioRe string `json:"scenario_re"`
 	} `json:"match"`
 	Commit string `json:"commit,omitempty"`
-	detail, scen *regexp.Regexp
+	detail, scen, oracle *regexp.Regexp
 }
 
 type KnownFile struct {
@@ -35,6 +35,9 @@ func LoadKnown(path string) []*Known {
 		return nil
 	}
 	for _, k := range f.Findings {
+		if k.Match.Oracle != "" {
+			k.oracle = regexp.MustCompile("^(?:" + k.Match.Oracle + ")$")
+		}
 		if k.Match.DetailRe != "" {
 			k.detail = regexp.MustCompile("(?s)" + k.Match.DetailRe)
 		}
@@ -52,7 +55,7 @@ func MatchKnown(known []*Known, sc *Scenario, v *Violation) *Known {
 		if k.Status != "open" || k.Property != v.Property {
 			continue
 		}
-		if k.Match.Oracle != "" && k.Match.Oracle != v.Oracle {
+		if k.oracle != nil && !k.oracle.MatchString(v.Oracle) {
 			continue
 		}
 		if k.detail != nil && !k.detail.MatchString(v.Detail) {
